@@ -21,7 +21,8 @@ type Presentation struct {
 type C02Plan struct {
 	Kind     string       `json:"kind"` // lib | cli
 	Table    TableSpec    `json:"table"`
-	A, B     Presentation `json:"a"`
+	A        Presentation `json:"a"`
+	B        Presentation `json:"b"`
 	Mutation string       `json:"mutation"` // cell | colname | swapcols | pk | none
 	MutRow   int          `json:"mut_row"`
 	MutCol   int          `json:"mut_col"`
